@@ -25,9 +25,35 @@
                              close a router whose first handler is just being added                     *)
 EXTENDS Naturals, FiniteSets, TLC
 
-CONSTANTS H, AllowUserClose, LegacyUnbufferedSignal, MutSignalBeforeAdd
+CONSTANTS
+    \* @type: Set(Str);
+    H,
+    \* @type: Bool;
+    AllowUserClose,
+    \* @type: Bool;
+    LegacyUnbufferedSignal,
+    \* @type: Bool;
+    MutSignalBeforeAdd
 
-VARIABLES hst, wg, wpc, tok, run, closed, byWatcher, userDone, adding
+VARIABLES
+    \* @type: Str -> Str;
+    hst,
+    \* @type: Int;
+    wg,
+    \* @type: Str;
+    wpc,
+    \* @type: Int;
+    tok,
+    \* @type: Str;
+    run,
+    \* @type: Bool;
+    closed,
+    \* @type: Bool;
+    byWatcher,
+    \* @type: Bool;
+    userDone,
+    \* @type: Str;
+    adding
 vars == <<hst, wg, wpc, tok, run, closed, byWatcher, userDone, adding>>
 
 Init == /\ hst = [h \in H |-> "none"] /\ wg = 0 /\ wpc = "off" /\ tok = 0 /\ run = "idle"
@@ -98,4 +124,28 @@ AllEnded == userDone /\ run # "idle" /\ Added # {} /\ \A h \in Added : hst[h] = 
 SelfClose == AllEnded ~> (closed /\ run = "returned")
 \* a router that never had a handler stays open
 NeverEmptyClose == (Added = {} /\ adding = "none") => ~byWatcher
+
+-----------------------------------------------------------------------------
+\* Inductive invariant for the repaired design (checked with Apalache for every H within a universe of five names:
+\* IndInit => IndInv in 0 steps, IndInv /\ Next => IndInv' in 1 step; see bin/apalache-watcher)
+Active == {h \in H : hst[h] \in {"added", "started"}}
+IndInv ==
+    /\ hst \in [H -> {"none", "added", "started", "stopped"}]
+    /\ wg \in 0..Cardinality(H) /\ tok \in 0..1
+    /\ wpc \in {"off", "toselect", "select", "wait", "check", "done"}
+    /\ run \in {"idle", "running", "returned"}
+    /\ closed \in BOOLEAN /\ byWatcher \in BOOLEAN /\ userDone \in BOOLEAN
+    /\ adding = "none"                                   \* (AddHandler is one step in the repaired design)
+    /\ wg = Cardinality(Active)
+    /\ (run = "idle") = (wpc = "off")
+    /\ run = "idle" => ~closed
+    /\ run = "returned" => closed
+    /\ tok = 1 => Added # {}
+    /\ wpc \in {"wait", "check"} => Added # {}
+    /\ (wpc = "check" /\ ~closed) => wg = 0
+    /\ byWatcher => (closed /\ wpc = "done" /\ wg = 0 /\ Added # {})
+Safety == NoEarlyClose /\ NeverEmptyClose
+IndInit == IndInv
+ConstInit == /\ H \in SUBSET {"a", "b", "c", "d", "e"}
+             /\ AllowUserClose \in BOOLEAN /\ LegacyUnbufferedSignal = FALSE /\ MutSignalBeforeAdd = FALSE
 =============================================================================
